@@ -13,7 +13,7 @@ PROPERTY = 'C14'
 META = {
     'level': 'exploration',
     'technique': 'history + executable array model driven through two independent client implementations (pylogix, reference codec) against the real TCP simulator; inspection of the forward-open table',
-    'text': 'pylogix connects to the real simulator (Register Session + Large Forward Open), reads and writes scalars and arrays of BOOL, SINT, INT, DINT, LINT, REAL, LREAL and the unsigned '
+    'text': 'Every pylogix session reads at exactly one and two reply capacities and one element either side; connected reference sessions start their sequence counts just below the 16-bit wrap, a byte boundary and powers of two; two reference originators with one connection triplet are opened together and one is closed. pylogix connects to the real simulator (Register Session + Large Forward Open), reads and writes scalars and arrays of BOOL, SINT, INT, DINT, LINT, REAL, LREAL and the unsigned '
             'types, reads arrays larger than one reply (it fragments by itself), performs list reads (Multiple Service Packet over SendUnitData), provokes out-of-range and unknown-tag errors, '
             'and closes (Forward Close). Every returned value and status is compared with the array model (status strings mapped to codes); while connected the Connection Manager must hold '
             'exactly one forward entry for the peer and none after close. The same kind of history is sent as bytes produced by the reference encoder, unconnected (SendRRData) and connected '
